@@ -181,7 +181,10 @@ def run_property(prop, tier, only=None, seed=0, write_evidence=True, quiet=False
                            how_to_replay="./check replay " + fn), f, indent=1, default=str)
         return fn
 
+    stale = []          # (case, stand-in case, undecided entries, error entries) of proofs that have a bounded stand-in
+    unclean = set()     # cases with a violation, an undecided obligation or an error
     for r in results:
+        mark = (len(violations), len(undecided), len(errors))
         per_case.append(dict(case=r['case'], tier=r.get('tier'), paths=r.get('paths'), wall_s=r.get('wall_s'),
                              obligations=len(r['obligations']), errors=r.get('n_errors', 0),
                              ast=sorted(str(f.get('ast_sha1')) for f in r.get('functions', []))))
@@ -195,6 +198,9 @@ def run_property(prop, tier, only=None, seed=0, write_evidence=True, quiet=False
         notes.update(r.get('notes', []))
         solver_s += r.get('solver_s', 0)
         bounded = r.get('tier') == 'B'     # tier F (finite domain, exhaustive) counts as discharged
+        # loop invariants are proof annotations: when one no longer verifies, the annotation may simply not match refactored
+        # code any more, so nothing derived from it is reported as a violation without a failing input of the real code
+        annot_broken = any(is_annotation(ob['name']) and ob['verdict'] != 'proved' for ob in r['obligations'])
         for ob in r['obligations']:
             if bounded:
                 n_bounded += 1
@@ -246,6 +252,9 @@ def run_property(prop, tier, only=None, seed=0, write_evidence=True, quiet=False
                         else:
                             fn = write_replay(ob, rec, 'confirmed-boundary-seed')
                             violations.append((ob['name'], fn, ''))
+                    elif annot_broken:
+                        undecided.append(ob['name'] + " (a loop annotation of this case no longer verifies and no failing input of the "
+                                         "real code was found: the proof has to be re-annotated)")
                     elif ob['name'] in base_proved:
                         fn = write_replay(ob, ob['refuted'][0], 'refuted-without-native-witness')
                         violations.append((ob['name'], fn, ' no-failing-input-found'))
@@ -264,6 +273,24 @@ def run_property(prop, tier, only=None, seed=0, write_evidence=True, quiet=False
                     errors.append("%s: native seed %s fails a clause the engine proved (engine/oracle mismatch)" % (full, s['inputs']))
             if s['replay'].get('error') and not s['replay'].get('failed'):
                 errors.append("%s: native seed replay error: %s" % (r['case'], s['replay']['error']))
+        if (len(violations), len(undecided), len(errors)) != mark:
+            unclean.add(r['case'])
+            if r.get('stand_in') and len(violations) == mark[0]:
+                # an unbounded proof that no longer goes through (annotation mismatch, unsupported construct, solver unknown)
+                # while nothing is refuted on the real code: decided below, after its bounded stand-in has been looked at
+                stale.append((r['case'], r['stand_in'], undecided[mark[1]:], errors[mark[2]:]))
+                del undecided[mark[1]:]
+                del errors[mark[2]:]
+
+    stale_notes = []
+    for cname, stand_in, und, errs in stale:
+        ran = any(pc['case'] == stand_in for pc in per_case)
+        if ran and stand_in not in unclean:
+            for x in und + errs:
+                stale_notes.append("%s: %s" % (cname, x))
+        else:
+            undecided.extend(und)
+            errors.extend(errs)
 
     # vacuity / regression guards
     if n_obl + n_bounded == 0:
@@ -287,6 +314,8 @@ def run_property(prop, tier, only=None, seed=0, write_evidence=True, quiet=False
         print("  obligation: %s" % name)
     for u in undecided:
         print("UNDECIDED property=%s %s" % (prop, u))
+    for u in stale_notes[:12]:
+        print("STALE-PROOF property=%s (bounded stand-in holds, clause counted as not discharged) %s" % (prop, u[:400]))
     for e in errors[:20]:
         print("CHECKER-ERROR property=%s %s" % (prop, e))
 
@@ -302,7 +331,7 @@ def run_property(prop, tier, only=None, seed=0, write_evidence=True, quiet=False
                functions_under_contract=sorted(functions.values(), key=lambda f: f.get('qualname') or ''),
                native_cover_runs=sum(r.get('cover_runs', 0) for r in results),
                cases=per_case, samples=samples or [dict(note="no proved obligation to sample")],
-               undecided=undecided[:50], violations=[v[0] for v in violations],
+               undecided=undecided[:50], stale_proofs=stale_notes[:50], violations=[v[0] for v in violations],
                known_findings=[k.get('id') for k in known_hits], engine_notes=sorted(notes), meta=metas,
                explanation=("All obligations are generated from the current source of /repo by symbolic execution of the "
                             "function ASTs (pyvc) and discharged by z3; tier-B cases are bounded stand-ins and are counted "
@@ -356,6 +385,10 @@ def do_replay(fn):
 
 
 THOROUGH_BASELINE = False
+
+
+def is_annotation(name):
+    return '#loop' in name and ':invariant-' in name
 
 
 def do_baseline(props):
